@@ -76,6 +76,16 @@ CHECKS = {
         technique="TLA+ spec Compose.tla (big-step Eval threading stream position, call count and call log); TLC over every well-typed expression of depth <= 2 x input shape x failure position with LeftToRight / StopsAtFirstFailure / ErrorLocates invariants; every case replayed on the real combinators built through the Composable API; random deeper compositions trace-validated",
         text="Evaluation order, data flow, randomness consumption and error location of then / and / map (pair, array, vector) / repeat / identity / constant and the Mutate / Recombine wrappers (by value and by reference) are an explicit evaluation function; TLC enumerates all small well-typed expressions with a failure injected at every component call and checks the clauses; each case is executed on the real combinators with component operators that log (id, input, stream position) under a counting RNG, comparing value, error path, call log and words consumed; random compositions of depth 5 (tens of calls) are checked by TLC against the same function.",
         note="Combinator and error types are private to ec-core; the harness builds compositions with the public Composable methods and reads error variants from Debug/Display/source(). Select / GenomeExtractor / GenomeScorer wrappers are covered under C15-C17."),
+    "C16": dict(
+        cat="other", ref="DESIGN.md §4 C16",
+        technique="TLA+ spec Functional.tla (an operator application is a function of configuration, arguments and generator state); differential trace validation: repeated, interleaved and cross-thread calls on one operator value from equal generator states, and Push runs from differently declared inputs, checked by TLC for 'one key, one value'",
+        text="The stateless-function contract that every other specification here assumes is stated explicitly; 30+ operators and generators of the three crates (selectors incl. weighted and dyn lists, Select/Mutate/Recombine pipelines, GenomeScorer, WithRate, WithOneOverLength, Umad, both crossovers in all forms, collection / bool / gene / Plushy / individual generators, OneOfCloning, ChooseCloning, Choose) are observed under SmallRng and StdRng behind a word-counting wrapper; TLC rejects any trace in which one (operator, arguments, generator state) has two different (result, words consumed, next word). Push programs are run from six differently ordered, separately built input maps.",
+        note="The specification's own role is small (stated in DESIGN). Hidden state shows up with overwhelming probability, not certainty."),
+    "C17": dict(
+        cat="other", ref="DESIGN.md §4 C17",
+        technique="TLA+ spec Functional.tla with wrapper-free keys; differential trace validation over all 7 pointer kinds x 4 auto-trait sets x 5 erased traits x several wrapped implementations; the flavour table is a separate cargo target so a missing generated impl is a reported violation",
+        text="For DynSelector, DynMutator, DynRecombinator, DynOperator and DynChildMaker, behind &, &mut, Box, Arc, Rc, Ref and RefMut, each with no / Send / Sync / Send+Sync bounds, the erased call must return the same individual / genome / value, the same error text, consume the same number of words and leave the generator in the same state as the concrete operator, for library operators, an always-failing one and one that consumes a data-dependent number of words. Exhaustive over flavours; seeds are sampled.",
+        note="Differential; results compared through Debug / Display renderings."),
     "C18": dict(
         cat="model_checking", ref="DESIGN.md §4 C18",
         technique="TLA+ spec Choices.tla; TLC over all collections <= 4/6 (with duplicates) and all size pairs; every case replayed in all 17 conversion flavours and 6 collectors; random uses trace-validated; position frequencies vs the uniform law",
@@ -115,7 +125,7 @@ def main():
           for pid in ALL if pid not in CHECKS]
     m = {
         "version": 1,
-        "setup_cmd": "cd /verif/harness && CARGO_NET_OFFLINE=true cargo build --offline --bin vh",
+        "setup_cmd": "cd /verif/harness && CARGO_NET_OFFLINE=true cargo build --offline --bin vh --bin vh-erased",
         "hooks": {
             "guard": "unhindered_ec_verif",
             "enable": "RUSTFLAGS --cfg unhindered_ec_verif (set in /verif/harness/.cargo/config.toml); no hook commits exist: all observation goes through the public API and harness-supplied probe types",
